@@ -1164,7 +1164,7 @@ theorem recItems_prefix {lo hi : Lim} (h : Lim.le lo hi) : ∀ (xs ys : VL) (b b
       exact catS_relP (recV_rel h x) (recV_tail lo x) (recItems_prefix h xs (xs ++ t) _ _ (List.prefix_append _ _) hb.pred)
 
 theorem listArgL_rel {lo hi : Lim} (h : Lim.le lo hi) {o o' : ObjL} (ho : RelO o o') :
-    RelR RelS (listArgL lo o) (listArgL hi o') := by
+    RelS (listArgL lo o) (listArgL hi o') := by
   have lazyCase : ∀ (xs : VL) (e : Option LErr) (ys : VL) (e' : Option LErr), RelS (xs, e) (ys, e') →
       RelS (catS (recItems lo none (limitLazy lo (xs, e)).1) ([], (limitLazy lo (xs, e)).2))
         (catS (recItems hi none (limitLazy hi (ys, e')).1) ([], (limitLazy hi (ys, e')).2)) := by
@@ -1195,24 +1195,21 @@ theorem listArgL_rel {lo hi : Lim} (h : Lim.le lo hi) {o o' : ObjL} (ho : RelO o
   | refl =>
     unfold listArgL
     split
-    · exact RelR.ok (lazyCase _ _ _ _ (RelS.refl _))
-    · exact RelR.ok (recV_rel h _)
-    · exact RelR.err _
-  | lazy hs => exact RelR.ok (lazyCase _ _ _ _ hs)
-  | ordered hs => exact RelR.ood _
+    · exact lazyCase _ _ _ _ (RelS.refl _)
+    · exact recV_rel h _
+    · exact RelS.refl _
+  | lazy hs => exact lazyCase _ _ _ _ hs
+  | ordered hs => exact RelS.refl _
 
 inductive RelSs : List (VL × Option LErr) → List (VL × Option LErr) → Prop where
   | nil : RelSs [] []
   | cons {s s' : VL × Option LErr} {r r' : List (VL × Option LErr)} : RelS s s' → RelSs r r' → RelSs (s :: r) (s' :: r')
 
 theorem listArgsL_rel {lo hi : Lim} (h : Lim.le lo hi) {os os' : List ObjL} (ho : RelOs os os') :
-    RelR RelSs (listArgsL lo os) (listArgsL hi os') := by
+    RelSs (os.map (listArgL lo)) (os'.map (listArgL hi)) := by
   induction ho with
-  | nil => exact RelR.ok RelSs.nil
-  | cons h1 _ ih =>
-    unfold listArgsL
-    apply RelR.bind (listArgL_rel h h1); intro s s' hs
-    exact RelR.bind ih (fun r r' hr => RelR.ok (RelSs.cons hs hr))
+  | nil => exact RelSs.nil
+  | cons h1 _ ih => exact RelSs.cons (listArgL_rel h h1) ih
 
 theorem catStreams_rel {ps ps' : List (VL × Option LErr)} (h : RelSs ps ps') : RelS (catStreams ps) (catStreams ps') := by
   induction h with
@@ -1233,7 +1230,8 @@ theorem dictItemsL_rel {lo hi : Lim} (h : Lim.le lo hi) (c : ECfg) : ∀ (xs : V
     unfold dictItemsL
     apply RelR.bind (RelR.refl (fun _ => rfl) _); intro p p' hp; subst hp
     apply RelR.bind (measure_rel h _); intro _ _ _
-    exact dictItemsL_rel h c r _
+    apply RelR.bind (dictItemsL_rel h c r _); intro rest rest' hr; subst hr
+    exact RelR.ok rfl
 
 /-- the items of a source that the limiter cut: the `lo` side never raises a definite exception -/
 theorem hideBase_cut {x : RL α} {e : LErr} (he : isLim e = true) (y : RL ObjL) :
@@ -1679,11 +1677,10 @@ theorem callFnL_rel {lo hi : Lim} (h : Lim.le lo hi) (c : ECfg) {ev ev' : EvL} (
     split
     · exact RelR.err _
     · apply RelR.bind (evalObjsL_rel hev C _); intro os os' hos
-      apply RelR.bind (listArgsL_rel h hos); intro parts parts' hparts
       rw [objSzs_rel c hos]
       apply RelR.bind (measureEach_rel h _); intro _ _ _
       apply RelR.bind (measure_rel h _); intro _ _ _
-      apply RelR.bind (drain_rel (limitLazy_rel h (catStreams_rel hparts))); intro xs xs' hxs; subst hxs
+      apply RelR.bind (drain_rel (limitLazy_rel h (catStreams_rel (listArgsL_rel h hos)))); intro xs xs' hxs; subst hxs
       exact RelR.ok (RelO.refl _)
   · -- dict
     split
